@@ -19,7 +19,7 @@ case "$patch" in revert:*)
 if [ "$rev" = reverse ]; then
 	git -C "$wt" apply -R --3way "$patch" >/dev/null 2>&1 || git -C "$wt" apply -R "$patch" || { echo "RESULT patch=$patch APPLY-FAILED"; exit 4; }
 else
-	git -C "$wt" apply "$patch" || { echo "RESULT patch=$patch APPLY-FAILED"; exit 4; }
+	git -C "$wt" apply "$patch" 2>/dev/null || git -C "$wt" apply --3way "$patch" >/dev/null 2>&1 || { echo "RESULT patch=$patch APPLY-FAILED"; exit 4; }
 fi
 ;;
 esac
